@@ -44,6 +44,37 @@ func minBounds(v ssa.Value, depth int) map[string]bool {
 				}
 			}
 		}
+		// a clamp helper of the package (possibly shared by both senders): what every value it returns is bounded by, with
+		// its parameters standing for this call's arguments
+		if h := helperCallee(x); h != nil && h.Signature.Results().Len() == 1 && len(h.Blocks) > 0 {
+			saved := paramBindings
+			paramBindings = map[*ssa.Parameter]ssa.Value{}
+			for k, b := range saved {
+				paramBindings[k] = b
+			}
+			for k, p := range h.Params {
+				if k < len(x.Call.Args) {
+					paramBindings[p] = x.Call.Args[k]
+				}
+			}
+			var common map[string]bool
+			forEachReturnValue(h, 0, func(rv ssa.Value, at ssa.Instruction) {
+				mb := minBounds(rv, depth+1)
+				if common == nil {
+					common = mb
+					return
+				}
+				for k := range common {
+					if !mb[k] {
+						delete(common, k)
+					}
+				}
+			})
+			paramBindings = saved
+			for k := range common {
+				out[k] = true
+			}
+		}
 	case *ssa.Phi:
 		if len(x.Edges) != 2 {
 			return out
